@@ -418,9 +418,9 @@ REPS4 = {'quick': 20, 'thorough': 150}         # fillings per (config, subset, m
 PD_MAXK = {'quick': 3, 'thorough': 4}          # PdiffIndex: all subsets up to this size ...
 PD_REPS = {'quick': 2, 'thorough': 6}
 PD_RANDOM = {'quick': 300, 'thorough': 2000}   # ... plus this many random larger subsets
-RANDOM = {'quick': 11400, 'thorough': 570000}   # free random stream
+RANDOM = {'quick': 11000, 'thorough': 550000}   # free random stream
 PD_EXTRA = {'quick': 1200, 'thorough': 40000}   # PdiffIndex Current-as-list / single-line 3-column cases
-HIST = {'quick': 5800, 'thorough': 194000}      # histories (one object, 2..4 dumps with mutations between)
+HIST = {'quick': 5600, 'thorough': 187000}      # histories (one object, 2..4 dumps with mutations between)
 # mixed text layout (first record on the field line, further records on continuation lines)
 MIXED_P = 0.25                                  # share of >= 2-record fields of ANY parsed text written that way
 MIXED_REPS = {'quick': 10, 'thorough': 150}     # fillings per (config, structured field, record count 2..4)
@@ -1861,8 +1861,9 @@ def render_line(r, rec, layout, width):
     return out
 
 
-def render_text(r, items, forms):
-    """items: [key, 'plain', value] | [key, 'records', lower, [[tok..]..]]"""
+def render_text(r, items, forms, tight=()):
+    """items: [key, 'plain', value] | [key, 'records', lower, [[tok..]..]]; tight: fields whose record lines are the
+    tokens joined by ONE blank each (so that tokens which together spell a line spell it exactly)"""
     out = []
     for it in items:
         if it[1] == 'plain':
@@ -1871,6 +1872,8 @@ def render_text(r, items, forms):
             continue
         key, _, lower, recs = it
         layout = r.choice(['tight', 'tight', 'aligned', 'ragged'])
+        if lower in tight:
+            layout = 'tight'
         width = r.choice([16, max(len(x[1]) for x in recs), r.randint(1, 20)])
         lines = [render_line(r, rec, layout, width) for rec in recs]
         if forms[lower] == 'single':
@@ -1950,7 +1953,8 @@ def pd_is_3col(f):
 
 
 def gen_case(r, clsname, behavior, subset, mode, big=False, tweak=None, force=None, inv_p=None, inject=None,
-             lpos=None, input_form=None, dump_via=None, one=None, bare=None, bare_p=0.0):
+             lpos=None, input_form=None, dump_via=None, one=None, bare=None, bare_p=0.0, lk=None, lk_fpos=None,
+             lk_order=None):
     """tweak (PdiffIndex only): 'pd-current-list' forces SHA*-Current present as >= 2 records with sizes of
     different lengths; 'pd-single3' forces text mode with 1..3 History/Patches/Download fields whose only
     record sits on the field line.
@@ -1964,11 +1968,29 @@ def gen_case(r, clsname, behavior, subset, mode, big=False, tweak=None, force=No
     one: fields that are present with exactly ONE record (any mode).
     bare / bare_p (build mode): fields with exactly one record whose value is handed over as the BARE record
     (para[f] = rec - the value shape the library itself exposes for a record on the field line) instead of a
-    list holding that record; `bare` names them, `bare_p` is the share of the other one-record fields."""
+    list holding that record; `bare` names them, `bare_p` is the share of the other one-record fields.
+    lk: {field: {'n': record count, 'layout': 'single' | 'multi' | 'mixed' (text mode) | 'list' | 'bare' (build mode),
+    'marks': [[record index, template, look-alike class], ..], 'tight': bool (one blank between the tokens of every record
+    line of the field in the text; always so when an armor look-alike is marked)}} - the field is present with exactly n records and the
+    marked records carry the template's tokens (None = keep the generated token), which joined by blanks spell a line
+    with a meaning elsewhere in the format; lk_fpos: [field, 'first' | 'middle' | 'last'] - where that field stands among
+    the structured fields of the paragraph; lk_order: the look-alike fields in the order in which they follow each other
+    in the paragraph."""
     table = mv.DOC[clsname]
     present = list(subset)
     force_single, mixed = set(), set()
-    force = force or {}
+    force = dict(force or {})
+    lk = lk or {}
+    if lk:
+        bare = list(bare or ())
+        for f in sorted(lk):
+            if mode == 'text':
+                force[f] = [lk[f]['layout'], lk[f]['n']]
+            else:
+                if f not in present:
+                    present.append(f)
+                if lk[f]['layout'] == 'bare':
+                    bare.append(f)
     lpos = lpos or {}
     one = list(one or ())
     for f in one:
@@ -1996,6 +2018,13 @@ def gen_case(r, clsname, behavior, subset, mode, big=False, tweak=None, force=No
             force_single.add(f)
     if r.random() < 0.5:
         r.shuffle(present)
+    if lk_fpos and len(present) > 1:
+        present.remove(lk_fpos[0])
+        present.insert({'first': 0, 'last': len(present)}.get(lk_fpos[1], (len(present) + 1) // 2), lk_fpos[0])
+    if lk_order:
+        slots = [i for i, f in enumerate(present) if f in lk_order]
+        for i, f in zip(slots, lk_order):
+            present[i] = f
     counts = {}
     for f in present:
         counts[f] = r.choice([1, 2, 2, 3, 4])
@@ -2009,9 +2038,11 @@ def gen_case(r, clsname, behavior, subset, mode, big=False, tweak=None, force=No
             counts[f] = lpos[f][0]
         if f in force:
             counts[f] = force[f][1]
+        if f in lk:
+            counts[f] = lk[f]['n']
     if present and r.random() < 0.85 and max(counts.values()) < 2:
         f = r.choice(present)
-        if f not in force_single and f not in force and f not in one:
+        if f not in force_single and f not in force and f not in one and f not in lk:
             counts[f] = r.randint(2, 4)
     items = []
     expect = {}
@@ -2031,6 +2062,10 @@ def gen_case(r, clsname, behavior, subset, mode, big=False, tweak=None, force=No
                 tok = _gen_token(r, table[f][col])
             recs[i][col] = inv_inject(r, tok, ch, pos)
             assert mv.is_ws_free_token(recs[i][col])
+        if f in lk:
+            for (i, template, _) in lk[f]['marks']:
+                recs[i] = [b if t is None else t for t, b in zip(template, recs[i])]
+                assert len(recs[i]) == len(table[f]) and all(mv.is_ws_free_token(t) for t in recs[i]), recs[i]
         expect[f] = recs
         items.append([spell(r, f), 'records', f, recs])
     plain = r.sample(mv.PLAIN[clsname], r.randint(1, min(3, len(mv.PLAIN[clsname]))))
@@ -2046,7 +2081,8 @@ def gen_case(r, clsname, behavior, subset, mode, big=False, tweak=None, force=No
                 forms[f] = 'single' if (r.random() < 0.5 or f in force_single) else 'multi'
             else:
                 forms[f] = 'mixed' if r.random() < MIXED_P else 'multi'
-        text = render_text(r, items, forms)
+        text = render_text(r, items, forms, tight=[f for f in lk if lk[f].get('tight') or
+                                                    any(m[2].startswith('armor') for m in lk[f]['marks'])])
         # the structured field (if any) that is the last field of the paragraph text
         case['last_item'] = items[-1][2] if items[-1][1] == 'records' else None
         inputs = ['str', 'str', 'bytes', 'lines', 'lines_nonl', 'file', 'bfile']
@@ -2056,6 +2092,8 @@ def gen_case(r, clsname, behavior, subset, mode, big=False, tweak=None, force=No
         if input_form:
             case['input'] = input_form
         if case['input'] == 'signed':
+            if lk:
+                case['body'] = text
             text = sign(text)
         elif r.random() < 0.15:
             text = text[:-1]                    # no final newline
@@ -2068,12 +2106,18 @@ def gen_case(r, clsname, behavior, subset, mode, big=False, tweak=None, force=No
         case['rectype'] = r.choice(['dict', 'dict', 'deb822dict'])
         case['int_sizes'] = r.random() < 0.25
         as_bare = sorted(f for f in present if counts[f] == 1 and
-                         (f in (bare or ()) or (f not in one and bare_p and r.random() < bare_p)))
+                         (f in (bare or ()) or (f not in one and f not in lk and bare_p and r.random() < bare_p)))
         if as_bare:
             case['bare'] = as_bare
     case['dump_via'] = r.choice(['str', 'str', 'str', 'fd_bytes', 'fd_text'])
     if dump_via:
         case['dump_via'] = dump_via
+    if lk:
+        # [field, record index, record count, look-alike class] per marked record, in the order of the paragraph; every
+        # field name as written, in order
+        case['lk'] = [[it[2], m[0], lk[it[2]]['n'], m[2]] for it in items if it[1] == 'records' and it[2] in lk
+                      for m in sorted(lk[it[2]]['marks'], key=lambda m: m[0])]
+        case['names'] = [it[0] for it in items]
     return case
 
 
@@ -2425,6 +2469,152 @@ def gen_one_case(r, item, rep, idx):
         case = gen_case(r, clsname, behavior, sub, 'build', one=[f] + (sub if all_one else []),
                         bare=bare, bare_p=0.5, dump_via=via)
     case['wl'] = ['one', f, shape]
+    return case
+
+
+# ---------------------------------------------------------------------------
+# RECORD TOKENS THAT TOGETHER SPELL A LINE WITH A MEANING ELSEWHERE IN THE FORMAT.  A record line is the record's tokens
+# joined by blanks behind the indentation (or behind "Field:" for a record on the field line).  Each token below is an
+# ordinary non-empty whitespace-free token - the domain of the property - but JOINED they read like an OpenPGP armor
+# line, a field line, a comment line, a line whose first token is '.', or a line starting with '-' / '+' (dash-escaping
+# of clear-signed text, diff markers).  A template has one entry per sub-field column; None keeps the generated token.
+LK_CLASSES = ('armor-begin-signature', 'armor-end-signature', 'armor-begin-message', 'field-line', 'comment', 'dot',
+              'dash', 'plus')
+LK_ARMOR = {
+    'armor-begin-signature': {
+        3: [['-----BEGIN', 'PGP', 'SIGNATURE-----']],
+        5: [['-----BEGIN', 'PGP', 'PUBLIC', 'KEY', 'BLOCK-----'], ['-----BEGIN', 'PGP', 'SIGNATURE-----', None, None],
+            [None, None, '-----BEGIN', 'PGP', 'SIGNATURE-----']]},
+    'armor-end-signature': {
+        3: [['-----END', 'PGP', 'SIGNATURE-----']],
+        5: [['-----END', 'PGP', 'PUBLIC', 'KEY', 'BLOCK-----'], ['-----END', 'PGP', 'SIGNATURE-----', None, None],
+            [None, None, '-----END', 'PGP', 'SIGNATURE-----']]},
+    # '-----BEGIN PGP SIGNED MESSAGE-----' has four tokens: it fits (with one more token before / behind it, or with its
+    # dashes as a token of their own) only where the field has more than three columns; the three-column fields get the
+    # three-token armor header of an OpenPGP message instead
+    'armor-begin-message': {
+        3: [['-----BEGIN', 'PGP', 'MESSAGE-----'], ['-----END', 'PGP', 'MESSAGE-----']],
+        5: [['-----BEGIN', 'PGP', 'SIGNED', 'MESSAGE-----', None], [None, '-----BEGIN', 'PGP', 'SIGNED', 'MESSAGE-----'],
+            ['-----BEGIN', 'PGP', 'SIGNED', 'MESSAGE', '-----']]},
+}
+LK_FIRST = {
+    'comment': ['#', '#x', '##', '#Files:', '#-----BEGIN'],
+    'dash': ['-', '--', '---', '-----', '-x', '-1', '-----BEGIN'],
+    'plus': ['+', '++', '+++', '+x', '+1'],
+}
+LK_SHAPES = (('text', 'single', 'only'), ('text', 'multi', 'only'), ('text', 'multi', 'first'), ('text', 'multi', 'middle'),
+             ('text', 'multi', 'last'), ('text', 'mixed', 'first'), ('text', 'mixed', 'middle'), ('text', 'mixed', 'last'),
+             ('build', 'list', 'only'), ('build', 'list', 'first'), ('build', 'list', 'middle'), ('build', 'list', 'last'),
+             ('build', 'bare', 'only'))
+LK_REPS = {'quick': 1, 'thorough': 4}           # per enumerated item (see lk_enumerated)
+LK_PAR = {'quick': 200, 'thorough': 10000}      # paragraphs with several such records
+LK_BASE_FORMS = ('str', 'bytes', 'lines', 'lines_nonl', 'file', 'bfile')
+LK_ITER_FORMS = ('iter-str', 'iter-lines', 'iter-bfile')
+
+
+def lk_templates(clsname, f, c):
+    """The templates of look-alike class `c` that fit structured field `f` of the class ([] = none fits: an armor line
+    needs at least three tokens)."""
+    n = len(mv.DOC[clsname][f])
+    rest = [None] * (n - 1)
+    if c in LK_ARMOR:
+        return LK_ARMOR[c].get(n, [])
+    if c == 'field-line':
+        other = [x for x in sorted(mv.DOC[clsname]) if x != f][0]
+        firsts = ['Files:', 'Name:', mv.DISPLAY[f] + ':', mv.DISPLAY[other] + ':', mv.PLAIN[clsname][0][0] + ':', 'X-Foo:',
+                  'Files:x']
+        out = [[t] + rest for t in firsts]
+        out.append(['Files', ':'] + [None] * (n - 2))
+        return out
+    if c == 'dot':
+        out = [['.'] + rest, ['.'] * n, rest + ['.']]
+        if n > 2:
+            out.append(['.', '.'] + [None] * (n - 2))
+        return out
+    out = [[t] + rest for t in LK_FIRST[c]]
+    if c == 'dash':
+        # the shape dash-escaping gives an armor line inside clear-signed text
+        out.append((['-', '-----BEGIN', 'PGP', 'SIGNATURE-----'] + [None] * n)[:n] if n != 3 else ['-', '-----BEGIN', None])
+    return out
+
+
+def lk_enumerated(tier):
+    """(clsname, behavior, field, look-alike class, (mode, layout, position of the record), running index, rep):
+    every configuration x look-alike class x shape - thorough: x every structured field the class fits; quick: the
+    field rotates with the running index - x LK_REPS."""
+    out = []
+    k = 0
+    for clsname, behavior in mv.CONFIGS:
+        fields = sorted(mv.DOC[clsname])
+        for c in LK_CLASSES:
+            cand = [f for f in fields if lk_templates(clsname, f, c)]
+            for shape in LK_SHAPES:
+                for rep in range(LK_REPS[tier]):
+                    for f in (cand if tier != 'quick' else [cand[(k + rep) % len(cand)]]):
+                        out.append((clsname, behavior, f, c, shape, k, rep))
+                k += 1
+    return out
+
+
+def gen_lk_case(r, item):
+    clsname, behavior, f, c, (mode, layout, pos), k, rep = item
+    templates = lk_templates(clsname, f, c)
+    template = templates[(k + k // len(LK_SHAPES) + rep) % len(templates)]
+    n = 1 if pos == 'only' else (2 if pos != 'middle' else 3) + (k + rep) % 2
+    idx = 0 if pos in ('only', 'first') else n - 1 if pos == 'last' else 1 + (k % 2 if n > 3 else 0)
+    others = [x for x in sorted(mv.DOC[clsname]) if x != f]
+    p = (0.5, 0.0, 0.85, 1.0)[(k + rep) % 4]
+    sub = [x for x in others if r.random() < p]
+    forms = input_forms_of(clsname)
+    case = gen_case(r, clsname, behavior, sub, mode,
+                    lk={f: {'n': n, 'layout': layout, 'marks': [[idx, template, c]], 'tight': (k + rep) % 3 != 0}},
+                    lk_fpos=[f, ('first', 'middle', 'last')[(k // 2 + rep) % 3]],
+                    input_form=forms[(k + rep) % len(forms)], dump_via=DUMP_VIAS[(k // 2 + rep) % 3])
+    case['wl'] = ['lk', f, c, '%s-%s-%s' % (mode, layout, pos)]
+    return case
+
+
+def gen_lk_paragraph(r, clsname, behavior):
+    """A paragraph in which several records of several fields are look-alikes of (mostly different) classes; in four
+    of ten the first marked record reads like an armor BEGIN line and the last one like an armor END line."""
+    fields = sorted(mv.DOC[clsname])
+    chosen = r.sample(fields, r.randint(2, 4) if len(fields) <= 4 else r.choice([2, 3, 4, 6, 8]))
+    mode = r.choice(['text', 'text', 'text', 'build', 'build'])
+    lk = {}
+    marks = []
+    for f in chosen:
+        n = r.choice([1, 2, 2, 3, 3, 4])
+        if mode == 'text':
+            layout = r.choice(['single', 'multi']) if n == 1 else r.choice(['multi', 'multi', 'mixed'])
+        else:
+            layout = r.choice(['list', 'list', 'bare']) if n == 1 else 'list'
+        lk[f] = {'n': n, 'layout': layout, 'marks': [], 'tight': r.random() < 0.7}
+        for i in range(n):
+            if r.random() < 0.55:
+                marks.append((f, i))
+    while len(marks) < 2:
+        f = r.choice(chosen)
+        i = r.randrange(lk[f]['n'])
+        if (f, i) not in marks:
+            marks.append((f, i))
+        elif all((g, j) in marks for g in chosen for j in range(lk[g]['n'])):
+            break
+    marks.sort(key=lambda m: (chosen.index(m[0]), m[1]))
+    paired = r.random() < 0.4
+    for j, (f, i) in enumerate(marks):
+        classes = [c for c in LK_CLASSES if lk_templates(clsname, f, c)]
+        c = r.choice(classes)
+        if paired and j == 0 and 'armor-begin-signature' in classes:
+            c = r.choice(['armor-begin-signature', 'armor-begin-message'])
+        elif paired and j == len(marks) - 1 and 'armor-end-signature' in classes:
+            c = 'armor-end-signature'
+        lk[f]['marks'].append([i, r.choice(lk_templates(clsname, f, c)), c])
+    lk = dict((f, v) for f, v in lk.items() if v['marks'])
+    others = [f for f in fields if f not in lk]
+    p = r.choice([0.0, 0.3, 0.7])
+    sub = [f for f in chosen if f not in lk] + [f for f in others if f not in chosen and r.random() < p]
+    case = gen_case(r, clsname, behavior, sub, mode, lk=lk, lk_order=[f for f in chosen if f in lk])
+    case['wl'] = ['lk-par']
     return case
 
 
@@ -3132,6 +3322,13 @@ def _enum_floors():
         # single-record fields: every (configuration, structured field, shape)
         for (clsname, behavior, f, shape) in one_enumerated():
             want['one:%s:%s:%s' % (tag_of(clsname, behavior), f, shape)] += ONE_REPS[tier]
+        # look-alike lines: every (configuration, class), (class, shape), (class, number of columns) and every
+        # structured field
+        for (clsname, behavior, f, c, shape, _, _) in lk_enumerated(tier):
+            want['lk-enum:%s:%s' % (tag_of(clsname, behavior), c)] += 1
+            want['lk-enum:shape:%s:%s-%s-%s' % ((c,) + shape)] += 1
+            want['lk-enum:columns:%s:%d' % (c, len(mv.DOC[clsname][f]))] += 1
+            want['lk-enum:field:%s:%s' % (clsname, f)] += 1
         for k, v in want.items():
             FLOORS[tier]['counters'][k] = v // 2
 
@@ -3242,6 +3439,15 @@ def cases(ctx):
             if ctx.mine(i):
                 yield gen_one_case(ctx.rng('one', i), item, rep, i)
             i += 1
+    # record tokens that together spell a line with a meaning elsewhere in the format (armor / field / comment /
+    # '.' / '-' / '+' look-alikes): enumerated, then paragraphs with several of them
+    for i, item in enumerate(lk_enumerated(ctx.tier)):
+        if ctx.mine(i):
+            yield gen_lk_case(ctx.rng('lk-enum', i), item)
+    r = ctx.rng('lk-par')
+    for i in range(ctx.size(LK_PAR['quick'], LK_PAR['thorough'])):
+        clsname, behavior = mv.CONFIGS[i % len(mv.CONFIGS)]
+        yield gen_lk_paragraph(r, clsname, behavior)
     # histories: one object, several dumps
     r = ctx.rng('history')
     for i in range(ctx.size(HIST['quick'], HIST['thorough'])):
@@ -5027,6 +5233,110 @@ def run_ctor_map(ctx, deb822, cls, clsname, case):
     ctx.mon('M.ctor.respell')
 
 
+def lk_suffix(case):
+    classes = sorted(set(m[3] for m in case['lk']))
+    return '/record-spelling-a-%s-line' % (classes[0] if len(classes) == 1 else 'look-alike')
+
+
+def lk_forms(clsname, salt):
+    """(form, wrapped in clear-sign armor?) - every input form the module has plus cls.iter_paragraphs over the document
+    (str, list of lines, binary file); for Dsc / Changes / BuildInfo additionally with the document wrapped in the armor
+    sign() writes: as str, and in three of the seven other forms (rotating with `salt`, the length of the text)."""
+    out = [(f, False) for f in LK_BASE_FORMS + LK_ITER_FORMS]
+    if clsname in GPG_CLASSES:
+        rest = LK_BASE_FORMS[1:] + LK_ITER_FORMS[:2]
+        out += [('str', True)] + [(rest[(salt + j) % len(rest)], True) for j in (0, 2, 4)]
+    return out
+
+
+def lk_parse(deb822, cls, text, form):
+    """The paragraphs `form` makes of the one-paragraph document `text` (a list; the constructor forms give one)."""
+    if form.startswith('iter-'):
+        x = (text if form == 'iter-str' else text.splitlines(True) if form == 'iter-lines'
+             else io.BytesIO(text.encode('utf-8')))
+        return list(itertools.islice(cls.iter_paragraphs(x), 3))
+    return [construct(deb822, cls, text, form)]
+
+
+def check_lookalike(ctx, deb822, cls, clsname, case, state):
+    """A paragraph with look-alike records, already judged the ordinary way: the generated text (parsed cases) and the
+    dumped text go through EVERY input form, bare and (Dsc / Changes / BuildInfo) wrapped in clear-sign armor; each time
+    exactly one paragraph must come out, exposing all records of all structured fields - those behind the look-alike
+    included - and showing every field that was written."""
+    table = mv.DOC[clsname]
+    expect = state['recs']
+    suffix = lk_suffix(case)
+    ctx.count('lk:case')
+    ctx.count('lk:mode:%s' % case['mode'])
+    wl = case.get('wl') or [None]
+    if wl[0] == 'lk':
+        ctx.count('lk-enum:case')
+        ctx.count('lk-enum:%s:%s' % (tag_of(clsname, case['behavior']), wl[2]))
+        ctx.count('lk-enum:shape:%s:%s' % (wl[2], wl[3]))
+        ctx.count('lk-enum:columns:%s:%d' % (wl[2], len(table[wl[1]])))
+        ctx.count('lk-enum:field:%s:%s' % (clsname, wl[1]))
+    elif wl[0] == 'lk-par':
+        ctx.count('lk-par:case')
+    last_struct = [n for n in case['names'] if n.lower() in table][-1].lower()
+    for (f, i, n, c) in case['lk']:
+        pos = 'only' if n == 1 else 'first' if i == 0 else 'last' if i == n - 1 else 'middle'
+        layout = case['forms'][f] if case['mode'] == 'text' else ('bare' if f in case.get('bare', ()) else 'list')
+        ctx.count('lk:class:%s' % c)
+        ctx.count('lk:record:%s:%s' % (c, pos))
+        ctx.count('lk:layout:%s:%s' % (c, layout))
+        ctx.count('lk:columns:%s:%d' % (c, len(table[f])))
+        ctx.count('lk:config:%s:%s' % (tag_of(clsname, case['behavior']), c))
+        later = (i < n - 1) or f != last_struct
+        ctx.count('lk:%s' % ('records-or-structured-fields-follow' if later else 'is-the-last-record-of-the-last-structured-field'))
+        if case['names'][-1].lower() == f:
+            ctx.count('lk:field-is-last-of-paragraph')
+    if len(case['lk']) > 1:
+        ctx.count('lk:marked-records:%s' % ('2' if len(case['lk']) == 2 else '3+'))
+        cs = [m[3] for m in case['lk']]
+        if cs[0] in ('armor-begin-signature', 'armor-begin-message') and cs[-1] == 'armor-end-signature':
+            ctx.count('lk:paragraph-with-begin-then-end-look-alike')
+    texts = []
+    if case['mode'] == 'text':
+        texts.append(('generated-text', case.get('body', case['text'])))
+    texts.append(('dumped-text', state['last_dump']))
+    for stage, text in texts:
+        for form, wrapped in lk_forms(clsname, len(text)):
+            tag = '%s%s' % ('clear-signed-' if wrapped else '', form)
+            try:
+                got = lk_parse(deb822, cls, sign(text) if wrapped else text, form)
+            except Exception as e:
+                ctx.violation('parse-raises/%s%s/%s-via-%s' % (type(e).__name__, suffix, stage, tag),
+                              '%s: parsing the %s %r (%s) raised %r' % (clsname, stage, text, tag, e))
+                return False
+            if len(got) != 1:
+                ctx.violation('paragraph-count%s/%s-via-%s' % (suffix, stage, tag),
+                              '%s.iter_paragraphs over the one-paragraph %s %r (%s) yields %d%s paragraphs: %r'
+                              % (clsname, stage, text, tag, len(got), '+' if len(got) > 2 else '',
+                                 [dict(x) for x in got]))
+                return False
+            bad = compare_records(got[0], table, expect)
+            if bad:
+                ctx.violation('%s-%s%s/%s-via-%s' % ('parse' if stage == 'generated-text' else 'roundtrip-%s' %
+                                                      ('parsed' if case['mode'] == 'text' else 'built'),
+                                                      bad[1], suffix, stage, tag),
+                              '%s(%s): %s read through %s: %s; text=%r; look-alike records [field, index, of, class]: %r'
+                              % (clsname, case['behavior'], stage, tag, bad[2], text, case['lk']))
+                return False
+            lost = [n for n in case['names'] if n not in got[0]]
+            if lost:
+                ctx.violation('field-lost%s/%s-via-%s' % (suffix, stage, tag),
+                              '%s(%s): %s read through %s: field(s) %r were written but are absent; text=%r; look-alike '
+                              'records [field, index, of, class]: %r' % (clsname, case['behavior'], stage, tag, lost, text,
+                                                                        case['lk']))
+                return False
+            ctx.mon('M.lk')
+            ctx.mon('M.lk.%s' % stage)
+            if wrapped:
+                ctx.mon('M.lk.clear-signed')
+            ctx.count('lk:via:%s:%s' % (stage, tag))
+    return True
+
+
 def run_case(ctx, case):
     from debian import deb822
     clsname = case['cls']
@@ -5070,6 +5380,8 @@ def run_case(ctx, case):
             where = '/first-record-on-field-line-plus-continuation-lines' if bad[0] in mixed else ''
             if any(x[0] == bad[0] for x in scan):
                 where += '/token-with-invisible-character'
+            if case.get('lk'):
+                where += lk_suffix(case)
             ctx.violation('parse-%s%s' % (bad[1], where),
                           '%s(%s input): %s; text=%r' % (clsname, case['input'], bad[2], case['text']))
             return
@@ -5141,10 +5453,13 @@ def run_case(ctx, case):
     for f in case.get('bare', ()):
         ctx.count('build:bare-record-value')
         ctx.count('build:bare-record-value:%s' % tag_of(clsname, case['behavior']))
-    if dump_and_judge(ctx, cls, clsname, obj, state, case.get('dump_via', 'str'), origin,
-                      deep={'twice': twice_of(case), 'forms': case.get('forms'), 'one': bool(wl and wl[0] == 'one')}
-                      ) and wl and wl[0] == 'one':
+    held = dump_and_judge(ctx, cls, clsname, obj, state, case.get('dump_via', 'str'), origin,
+                          suffix=lk_suffix(case) if case.get('lk') else '',
+                          deep={'twice': twice_of(case), 'forms': case.get('forms'), 'one': bool(wl and wl[0] == 'one')})
+    if held and wl and wl[0] == 'one':
         ctx.mon('M.one')
+    if held and case.get('lk'):
+        check_lookalike(ctx, deb822, cls, clsname, case, state)
 
 
 def twice_of(case):
